@@ -155,7 +155,12 @@ TOpenAppend ==
 TAppend ==
   /\ IsEv("Append")
   /\ wr = "open" /\ Ev.id = Len(appended) + 1
-  /\ LET r == AppendAll(file, woff, Ev.id, Ev.len, 1)
+  \* a writer may write the trailer of a block in which no header fits at once (RainLog.EagerPad)
+  \* or at the start of the next append: adopt what the real writer did
+  /\ LET r0 == AppendAll(file, woff, Ev.id, Ev.len, 1)
+         r1 == PadTail(r0)
+         r == IF Ev.ok /\ Ev.filelen_after = Total(r1.file) /\ Ev.filelen_after # Total(r0.file)
+              THEN r1 ELSE r0
          n == Total(r.file) IN
      /\ file' = r.file /\ woff' = r.woff /\ fileLen' = n
      /\ appended' = Append(appended, [id |-> Ev.id, len |-> Ev.len])
@@ -232,7 +237,9 @@ SweepCase(i) ==
       app0 == IF Ev.off = 0 THEN <<>> ELSE <<[id |-> 1, len |-> Ev.off - Hdr]>>
       id  == Len(app0) + 1
       len == Ev.from + i - 1
-      r   == AppendAll(b.file, b.woff, id, len, 1)
+      r0  == AppendAll(b.file, b.woff, id, len, 1)
+      r1  == PadTail(r0)
+      r   == IF Ev.flens[i] = Total(r1.file) /\ Ev.flens[i] # Total(r0.file) THEN r1 ELSE r0
       app == Append(app0, [id |-> id, len |-> len])
       n   == Total(r.file)
       tag == <<Ev.sc, Ev.off, len>>
